@@ -221,6 +221,21 @@ def cells_on_one_trainer(chk, tab, mm, *, variant, rng, T, guards):
         hp = with_form(hp, hp_keys(hp), rng.choice(["float", "t0", "mixed"]), rng)
         hdrs.append({"rule": variant, "hp": hp, "conn": {"kind": "dense", "M": 1, "N": 1}, "dt": dt, "B": 1,
                      "reduction": rng.choice(["sum", "mean"]), "dmax": None if d is None else 2, "delay": d})
+    if not guards and rng.random() < 0.5:
+        # the cells are two connections of ONE Biclique into ONE neuron group (same step time): candidates for
+        # monitor pooling.  Half of these runs differ ONLY in the learning rates, so that every monitor whose
+        # configuration does not depend on them is legitimately shared and every other one must not be.
+        for h in hdrs:
+            h["shared"], h["dt"] = True, hdrs[0]["dt"]
+        if rng.random() < 0.5:
+            for h in hdrs[1:]:
+                form = h["hp"].get("form")
+                h["hp"] = dict(hdrs[0]["hp"])
+                for k in [k for k in h["hp"] if k.startswith("lr_")]:
+                    h["hp"][k] = h["hp"][k] * rng.choice([0.5, 2.0, 0.25])
+                if form is not None:
+                    h["hp"]["form"] = hdrs[0]["hp"].get("form")
+                h["delay"], h["dmax"] = hdrs[0]["delay"], hdrs[0]["dmax"]
 
     def expect(j, xh, yh, t, r, _d):
         return [expected(tab, rule, hdrs[j]["hp"]["mode"], hdrs[j]["delay"] or 0, xh, yh, t, r)]
